@@ -97,6 +97,8 @@ def run_case(case):
     # arbitrary prior state of numpy's global generator
     np.random.seed(case["prior"])
     np.random.random(case["adv"])
+    if case["adv"] % 2:
+        np.random.standard_normal()      # leaves a cached Gaussian pending in the legacy state
     st0 = np.random.get_state()
     kw = dict(calib=(cy, cx), dtype=dtype, crop_corner=case["crop"], seed=case["seed"], tol=tol)
     variant = case["prior"] % 4
@@ -197,6 +199,12 @@ def run_case(case):
     except (ValueError, PoissonAbort):
         pass
     _CALLS[0] = 0
+    # the returned mask is the caller's array: overwriting it must not change what an
+    # identical later call returns
+    mask_first = mask.copy()
+    if mask.flags.writeable:
+        mask[...] = 0.5
+    mask = mask_first
     try:
         mask2 = mr.poisson(shape_arg, accel_arg, **kw)
     except (ValueError, PoissonAbort):
